@@ -26,6 +26,12 @@ RULE = ('kernel cases: seeded inputs cycling through the 24 cells (object finite
         'prescription and never read back; a fixed corpus of 30 prescription x route entries (incl. mirror-first systems with vertices left of surface 1) replayed whatever the seed; three classes of field lists (0..+max on y; largest magnitude negative; x and y '
         'extremes on different field points), off-axis Hx, fields with vx != vy, shuffled field lists with vignetting, curved object surfaces, object-space index != 1; '
         'the prescriptions of the three repaired findings replayed on every run; '
+        'round 6 (own random stream + 13 fixed corpus entries, implementation-level oracle with the object distance and object-space '
+        'index taken from the entered prescription): edit histories - a different lens/configuration is built and queried (EPL, EPD, '
+        'f2, generate_rays, trace_generic), then brought to the prescription with set_index (incl. surface 0 = object space), '
+        'set_thickness (incl. the object distance, finite <-> infinite), set_radius, set_aperture, set_field_type and the telecentric '
+        'flag, in shuffled order; finite object distances log-uniform 1e0..1e14 with the exact decades 1e10, 1e12 and 3.844e11, object '
+        'heights as generated or scaled with the distance, object NA scaled to a lens-sized pupil, through every route; both combined; '
         'non-trivial = a launched ray with finite record in a distinct (lens, ray)')
 PARTIAL = [
     'uniform sampling: the count is proved equal to the number of grid nodes with x^2+y^2 <= 1 (no closed form is claimed)',
@@ -294,6 +300,9 @@ def system_checks(ctx):
     #     points, off-axis Hx), where generate_rays itself refuses x fields
     yield _origins_check(ctx)
 
+    # (g) round 6: edit histories through the public setters and finite object distances up to 1e14
+    yield _history_check(ctx)
+
 
 def _trace_check(ctx):
     import random, warnings
@@ -539,6 +548,114 @@ def _origins_check(ctx):
     return res
 
 
+def _history_cases(ctx, n, salt=0):
+    """round 6: (a) edit histories - a different lens / configuration is built and queried, then brought to the prescription
+    with the public setters (set_index incl. the object space, set_thickness incl. the object distance, set_radius,
+    set_aperture, set_field_type, the telecentric flag); (b) finite object distances over the whole finite range
+    (log-uniform 1e0 .. 1e14, exact decades), heights as generated or scaled with the distance; (c) both.
+    Own random stream (the streams of the older checks are unchanged)."""
+    import random, warnings
+    import c03lib
+    warnings.simplefilter('ignore')
+    rng = random.Random(ctx.seed * 59 + 13 + salt)
+    hist = {'class': {'edited': 0, 'far-object': 0, 'edited+far-object': 0}, 'edit_kinds': {}, 'route': {}, 'cells': {},
+            'log10_object_distance': {}, 'heights_scaled_with_distance': 0, 'object_index_edited': 0, 'build_errors': {},
+            'launched': 0, 'raised': {}, 'pupil_not_in_front_of_object': 0, 'prescription_problems': 0}
+    finite_valid = [c for c in ALL_CELLS if not c[0] and not c03lib.must_reject(*c)]
+    out = []
+    for i in range(n):
+        klass = ('edited', 'far-object', 'edited+far-object')[i % 3]
+        if klass == 'edited':
+            cell = rng.choice(finite_valid) if rng.random() < 0.7 else rng.choice(ALL_CELLS)
+        else:
+            cell = rng.choice(finite_valid) if rng.random() < 0.85 else rng.choice([c for c in ALL_CELLS if not c[0]])
+        spec = c03lib.cell_spec(rng, cell, nsurf=rng.choice([1, 2, 3, 4, 6]))
+        if 'far' in klass:
+            c03lib.far_object(spec, rng)
+        spec['strict_oracle'] = True
+        if 'edited' in klass:
+            route = 'edited'
+            kinds = [k for k in c03lib.EDIT_KINDS if rng.random() < 0.4]
+            if i % 2 == 0 and 'object_index' not in kinds:
+                kinds.append('object_index')
+            if klass == 'edited+far-object' and rng.random() < 0.6 and 'object_distance' not in kinds:
+                kinds.append('object_distance')
+            spec['edit_kinds'] = kinds or [rng.choice(c03lib.EDIT_KINDS)]
+        else:
+            route = c03lib.ROUTES[(i // 3) % len(c03lib.ROUTES)]
+        spec['route'] = route
+        spec['history_class'] = klass
+        try:
+            o = c03lib.build(spec, route, rng)
+        except Exception as e:     # noqa
+            hist['build_errors'][type(e).__name__] = hist['build_errors'].get(type(e).__name__, 0) + 1
+            continue
+        if not math.isinf(spec['object_thickness']) and not spec.get('telecentric'):
+            # a pupil at or behind the object cannot be aimed at by a forward ray: outside the property
+            import oracles, paraxcorr
+            try:
+                epl = oracles.abcd_quantities(paraxcorr.psurfs(o), 'EPD', 1.0, 'angle', 1.0).get('EPL')
+            except Exception:    # noqa
+                epl = None
+            if epl is None or not math.isfinite(epl) or epl + spec['object_thickness'] <= 1e-3 * (1 + abs(epl)):
+                hist['pupil_not_in_front_of_object'] += 1
+                continue
+        hist['class'][klass] += 1
+        hist['route'][route] = hist['route'].get(route, 0) + 1
+        ck = '/'.join(str(c) for c in cell)
+        hist['cells'][ck] = hist['cells'].get(ck, 0) + 1
+        for e in spec.get('edits', []):
+            key = e[0] + ('(object)' if e[0] in ('index', 'thickness') and e[1] == 0 else '')
+            hist['edit_kinds'][key] = hist['edit_kinds'].get(key, 0) + 1
+            hist['object_index_edited'] += int(e[0] == 'index' and e[1] == 0)
+        if 'far' in klass:
+            dk = str(int(math.floor(math.log10(spec['object_thickness']))))
+            hist['log10_object_distance'][dk] = hist['log10_object_distance'].get(dk, 0) + 1
+            hist['heights_scaled_with_distance'] += int(max(abs(f[0]) for f in spec['fields']) > 100)
+        w = spec['wavelengths'][0][0]
+        rs = []
+        for ri, (Hx, Hy, Px, Py) in enumerate(_rays(rng, 5)):
+            via = 'generate' if ri % 2 == 0 else 'generic'
+            r = c03lib.impl_launch(o, Hx, Hy, Px, Py, w, via)
+            if r[0] == 'ok':
+                hist['launched'] += 1
+            else:
+                hist['raised'][r[1]] = hist['raised'].get(r[1], 0) + 1
+            rs.append(((Hx, Hy, Px, Py, w), via, r))
+        out.append((spec, o, rs))
+    return out, hist
+
+
+def _history_witnesses(ctx, n, salt=0):
+    import c03lib
+    cases, hist = _history_cases(ctx, n, salt)
+    wit, n_eval, nontrivial = [], 0, 0
+    for spec, o, rs in cases:
+        pp = c03lib.entered_problems(o, spec)
+        if pp:
+            hist['prescription_problems'] += 1
+            wit.append({'history_class': spec['history_class'], 'spec': spec, 'route': spec['route'], 'oracle': pp,
+                        'violates_property': True})
+            continue
+        for ray, via, r in rs:
+            n_eval += 1
+            nontrivial += int(r[0] == 'ok' and all(math.isfinite(v) for v in r[1][:6]))
+            eff = ray if via == 'generate' or r[0] != 'ok' else _generic_pupil(spec, ray)
+            bad = c03lib.check_launch(o, spec, eff, r)
+            if bad:
+                wit.append({'history_class': spec['history_class'], 'spec': spec, 'route': spec['route'], 'ray': list(ray), 'via': via,
+                            'implementation': list(r), 'oracle': bad[:4], 'violates_property': True})
+                break
+    return n_eval, nontrivial, wit, hist
+
+
+def _history_check(ctx):
+    res = {'name': 'edit-histories-and-far-finite-objects', 'n': 0, 'nontrivial': 0, 'histogram': {}, 'samples': [], 'disagreements': []}
+    n, nt, wit, hist = _history_witnesses(ctx, ctx.n(150, 900))
+    res['n'], res['nontrivial'], res['histogram'], res['disagreements'] = n, nt, hist, wit
+    return res
+
+
 SWEEP_FULL = {'hexapolar': 150, 'uniform': 400}      # every count 1..400 unless listed (hexapolar: RINGS; the
 SWEEP_QUICK = {'hexapolar': 60, 'uniform': 200}       # cost is cubic in the ring count, 150 rings = 67951 points)
 
@@ -598,6 +715,7 @@ def search(ctx, broken, disagreements):
     # fixed corpus through every route, then every named sampling at every count (cheap)
     found.extend(_corpus_witnesses()[1])
     found.extend(sampling_sweep(SWEEP_FULL)[1])
+    found.extend(_history_witnesses(ctx, ctx.n(150, 900), salt=211)[2])
     lenses, hist = _lenses(ctx, ctx.n(6, 40), 8, salt=101)
     for spec, o, rs in lenses:
         for ray, via, r in rs:
@@ -627,10 +745,34 @@ def search(ctx, broken, disagreements):
 # ---------------------------------------------------------------------------------------------
 # 5. known findings
 # ---------------------------------------------------------------------------------------------
+EPS64 = 2.220446049250313e-16
+
+
 def matches_finding(w, f):
-    """no open finding is listed for C03 (the three found on 2026-09-30 are repaired in /repo: 45f857e, 70bd414,
-    105641c); any witness therefore alarms"""
-    return False
+    """the three findings of 2026-09-30 are repaired in /repo (45f857e, 70bd414, 105641c).  One open finding (round 6):
+    telecentric object space with a far finite object - the cone direction is built as (dz + z0) - z0, so the launched
+    NA carries a relative error of up to ulp(z0) / dz.  A witness matches ONLY when every oracle entry is the
+    telecentric NA clause, the object is far and the error is within that rounding bound (an NA that is wrong for any
+    other reason - index ignored, wrong value - is far outside it and alarms)."""
+    m = f.get('match', {})
+    if m.get('kind') != 'telecentric-cone-cancellation-far-object':
+        return False
+    spec, orc = w.get('spec') or {}, w.get('oracle') or []
+    if not (spec.get('telecentric') and orc and all(b.get('kind') == 'telecentric-numerical-aperture' for b in orc)):
+        return False
+    d = float(spec.get('object_thickness', 0.0))
+    if not (math.isfinite(d) and d >= float(m.get('min_object_distance', 1e6))):
+        return False
+    hmax = max(math.hypot(float(r[0]), float(r[1])) for r in spec['fields'])
+    for b in orc:
+        s_ = b['NA'] / b['object_index']
+        dz = math.sqrt(1 - s_ * s_) / s_
+        if not b['expected'] > 0:
+            return False
+        pr = b['expected'] * dz            # lateral offset Px vx, Py vy that is added to (and subtracted from) the origin
+        if not abs(b['tan_theta'] - b['expected']) / b['expected'] <= 4 * EPS64 * (d / dz + hmax / pr):
+            return False
+    return True
 
 
 BACKWARDS_REPLAY = {
@@ -655,6 +797,9 @@ NA_INF_REPLAY = {
                  {'type': 'standard', 'radius': -50.0, 'thickness': 45.0, 'material': 'air'}],
     'aperture': ['objectNA', 0.1], 'field_type': 'angle', 'fields': [[0.0, 0.0, 0.0, 0.0], [5.0, 0.0, 0.0, 0.0]],
     'wavelengths': [[0.55, True]], 'telecentric': False}
+
+
+_WATER = ['ideal', 1.33, 0.0]
 
 
 def _with(spec, **kw):
@@ -720,7 +865,33 @@ CORPUS = REGRESSION_CASES + (
     [('mirror-is-first-surface/' + r, MIRROR_FIRST, r) for r in ('direct', 'reuse', 'roundtrip')] +
     [('two-mirrors-vertex-left-of-first-surface/' + r, CASSEGRAIN_LIKE, r) for r in ('direct', 'handbuilt')] +
     [('largest-height-negative/reuse', _with(FINITE_HEIGHT, aperture=['EPD', 9.0],
-                                              fields=[[-6.0, 0.0, 0.0, 0.0], [0.0, 0.0, 0.0, 0.0], [3.0, 0.0, 0.0, 0.0]]), 'reuse')]
+                                              fields=[[-6.0, 0.0, 0.0, 0.0], [0.0, 0.0, 0.0, 0.0], [3.0, 0.0, 0.0, 0.0]]), 'reuse')] +
+    # round 6: edit histories (the configuration / object space is reached with public setters on a lens created
+    # different and already queried) and finite object distances up to 1e13 lens units
+    [('immersion-set-after-construction/edited', _with(FINITE_HEIGHT, aperture=['objectNA', 0.1], object_material=_WATER,
+                                                        edit_kinds=['object_index'], strict_oracle=True), 'edited'),
+     ('immersion-set-after-construction-angle-fields/edited', _with(FINITE_HEIGHT, aperture=['objectNA', 0.07], field_type='angle',
+                                                                     object_material=['ideal', 1.47, 0.0],
+                                                                     edit_kinds=['object_index', 'aperture'], strict_oracle=True), 'edited'),
+     ('telecentric-immersion-set-after-construction/edited', _with(TELE_NA_REPLAY, object_material=_WATER,
+                                                                    edit_kinds=['object_index', 'telecentric'], strict_oracle=True), 'edited'),
+     ('immersion-removed-after-construction/edited', _with(FINITE_HEIGHT, aperture=['objectNA', 0.08],
+                                                            edit_kinds=['object_index', 'object_distance'], strict_oracle=True), 'edited'),
+     ('every-setter/edited', _with(FINITE_HEIGHT, edit_kinds=['object_index', 'object_distance', 'thickness', 'radius', 'index',
+                                                              'aperture', 'field_type', 'telecentric'], strict_oracle=True), 'edited'),
+     ('infinite-object-reached-by-set_thickness/edited', _with(INFINITE_VIG, edit_kinds=['object_distance', 'aperture']), 'edited'),
+     ('far-object-1e10-heights/direct', _with(FINITE_HEIGHT, object_thickness=1e10, strict_oracle=True), 'direct'),
+     ('far-object-moon-heights/roundtrip', _with(FINITE_HEIGHT, object_thickness=3.844e11, strict_oracle=True,
+                                                 fields=[[0.0, 0.0, 0.0, 0.0], [1.7374e9, 0.0, 0.0, 0.0]]), 'roundtrip'),
+     ('far-object-2.5e13-heights/reuse', _with(FINITE_HEIGHT, object_thickness=2.5e13, strict_oracle=True, aperture=['EPD', 7.0],
+                                               fields=[[0.0, 0.0, 0.0, 0.0], [-3.0e11, 0.0, 0.0, 0.0], [1.0e11, 0.0, 0.0, 0.0]]), 'reuse'),
+     ('far-object-1e12-angle-objectNA/direct', _with(FINITE_HEIGHT, object_thickness=1e12, strict_oracle=True, field_type='angle',
+                                                      aperture=['objectNA', 4e-12]), 'direct'),
+     ('far-object-1e10-angle-EPD/handbuilt', _with(FINITE_HEIGHT, object_thickness=1e10, strict_oracle=True, field_type='angle',
+                                                    aperture=['EPD', 8.0]), 'handbuilt'),
+     ('far-object-below-1e10/direct', _with(FINITE_HEIGHT, object_thickness=9.0e9, strict_oracle=True), 'direct'),
+     ('far-object-telecentric/edited', _with(TELE_NA_REPLAY, object_material=_WATER, object_thickness=1e6, strict_oracle=True,
+                                             edit_kinds=['object_distance']), 'edited')]
 )
 CORPUS_RAYS = [(0.0, 1.0, 0.0, 0.0), (0.0, 1.0, 0.0, 1.0), (0.0, -0.6, 0.5, -0.7), (0.0, 0.5, -1.0, 0.0), (0.0, 0.0, 0.6, 0.8)]
 
@@ -786,7 +957,19 @@ def _regression_check(ctx):
 
 
 def replay_finding(ctx, f):
-    return None
+    """telecentric-cone-cancellation-far-object: the telecentric immersion lens of the corpus with its object 1e13 lens
+    units away; the marginal ray of the axial field must leave with n0 sin(theta) = NA"""
+    if f.get('match', {}).get('kind') != 'telecentric-cone-cancellation-far-object':
+        return None
+    import c03lib
+    spec = _with(TELE_NA_REPLAY, object_material=_WATER, object_index=1.33, object_thickness=1e13, route='direct')
+    o = c03lib.build(spec, 'direct')
+    r = c03lib.impl_launch(o, 0.0, 0.0, 0.0, 1.0, 0.55, 'generate')
+    if r[0] != 'ok':
+        return True
+    L, M, N = r[1][3:6]
+    na = 1.33 * math.hypot(L, M) / math.sqrt(L * L + M * M + N * N) if all(map(math.isfinite, (L, M, N))) else float('nan')
+    return not abs(na - spec['aperture'][1]) <= 1e-9 * spec['aperture'][1]
 
 
 def broken_explained(b, known, witnesses):
